@@ -749,6 +749,7 @@ func DelClient(c Client) {
 	delete(g.clients, c.Id())
 	g.timestamp = time.Now()
 	clients := g.getClientsUnlocked(nil)
+	autoLockKick(g)
 	g.mu.Unlock()
 
 	c.Joined(g.Name(), "leave")
@@ -757,7 +758,6 @@ func DelClient(c Client) {
 			g.Name(), "delete", c.Id(), c.Username(), nil, nil,
 		)
 	}
-	autoLockKick(g)
 }
 
 func (g *Group) GetClients(except Client) []Client {
